@@ -1,6 +1,7 @@
 PROPERTY = "C12"
 LEVEL = "proof"
-LEAN_MODULES = ["CifModel.Props.C12", "CifModel.Lemmas.ParserTop", "CifModel.Props.C12Lex", "CifModel.Props.C12Scan"]
+LEAN_MODULES = ["CifModel.Props.C12", "CifModel.Lemmas.ParserTop", "CifModel.Props.C12Lex", "CifModel.Props.C12Scan", "CifModel.Props.ReviewC12",
+                "CifModel.Lemmas.ParserReach", "CifModel.Lemmas.DefectChars", "CifModel.Props.C12Chars"]
 REQUIRED = ["CifModel.C12_clean", "CifModel.C12_first_report_is_policy_free", "CifModel.C12_missing_value_instance",
             "CifModel.C12_unexpected_value_instance", "CifModel.C12_dup_scalar_instance", "CifModel.C12_dup_loop_header_instance",
             "CifModel.C12_partial_packet_instance", "CifModel.C12_empty_and_null_loop_instance", "CifModel.C12_no_block_header_instance",
@@ -16,6 +17,22 @@ REQUIRED = ["CifModel.C12_clean", "CifModel.C12_first_report_is_policy_free", "C
             "CifModel.C12_scanner_report_in_element_position", "CifModel.C12_null_loop", "CifModel.C12_invalid_itemname",
             "CifModel.C12_invalid_framecode", "CifModel.C12_dup_framecode", "CifModel.C12_invalid_blockcode",
             "CifModel.C12_dup_blockcode",
+            # character-level corollaries (Props/C12Chars.lean, Lemmas/DefectChars.lean, Lemmas/ParserReach.lean; group gC)
+            "CifModel.Props.C12_chars_missing_value", "CifModel.Props.C12_chars_unexpected_value",
+            "CifModel.Props.C12_chars_dup_itemname", "CifModel.Props.C12_chars_partial_packet",
+            "CifModel.Props.C12_chars_dup_header_name", "CifModel.Props.C12_chars_empty_loop",
+            "CifModel.Props.C12_chars_unexpected_delim", "CifModel.Props.C12_chars_unexpected_term",
+            "CifModel.Props.C12_chars_null_loop", "CifModel.Props.C12_chars_invalid_itemname",
+            "CifModel.Props.C12_chars_missing_delim_list", "CifModel.Props.C12_chars_missing_delim_table",
+            "CifModel.Props.C12_chars_table_missing_value", "CifModel.Props.C12_chars_missing_key",
+            "CifModel.Props.C12_chars_missing_key_word", "CifModel.Props.C12_chars_null_key",
+            "CifModel.Props.C12_chars_no_block_header", "CifModel.Props.C12_chars_invalid_blockcode",
+            "CifModel.Props.C12_chars_dup_blockcode", "CifModel.Props.C12_chars_invalid_framecode",
+            "CifModel.Props.C12_chars_eof_in_frame", "CifModel.Props.C12_chars_no_frame_term",
+            "CifModel.Props.C12_chars_frame_nesting_depth", "CifModel.Props.C12_chars_dup_framecode",
+            "CifModel.Props.C12Chars.C12_chars_missing_value_instance",
+            "CifModel.Model.Parser.Reach.det", "CifModel.Lemmas.DefectChars.reach_chunks", "CifModel.Lemmas.DefectChars.reach_line", "CifModel.Lemmas.DefectChars.reach_line_pending", "CifModel.Lemmas.DefectChars.posTok_snoc", "CifModel.Lemmas.DefectChars.block_defect_chars",
+            "CifModel.Lemmas.DefectChars.line_pending", "CifModel.Lemmas.DefectChars.line_consumed",
             # scanner-level classes (Props/C12Scan.lean, group gD)
             "CifModel.C12_disallowed_initial_char", "CifModel.C12_missing_space", "CifModel.C12_missing_space_value",
             "CifModel.C12_missing_space_glued_bracket", "CifModel.C12_missing_endquote", "CifModel.C12_unclosed_text",
